@@ -525,6 +525,9 @@ type state struct {
 	consumed      bool                // IO-4: passed the success side of an input site in this iteration
 	stickyChecked bool                // STK-1: passed a checked Reader.Error()
 	stored        bool                // PRE-2: an element of a pre-sized array was stored in this iteration
+	uniEq         map[*ssa.Phi]bool   // TOK-3: the latched count p equals len(tokens) of this line (branch taken)
+	uniNeg        map[*ssa.Phi]bool   // TOK-3: p is still negative, i.e. nothing was latched yet
+	uniLen        map[ssa.Value]bool  // TOK-3: phis that currently hold len(tokens) of this line
 	exhausted     *site
 }
 
@@ -552,6 +555,18 @@ func (s *state) clone() *state {
 			c.le[k] = v
 		}
 	}
+	if s.uniEq != nil || s.uniNeg != nil || s.uniLen != nil {
+		c.uniEq, c.uniNeg, c.uniLen = map[*ssa.Phi]bool{}, map[*ssa.Phi]bool{}, map[ssa.Value]bool{}
+		for k := range s.uniEq {
+			c.uniEq[k] = true
+		}
+		for k := range s.uniNeg {
+			c.uniNeg[k] = true
+		}
+		for k := range s.uniLen {
+			c.uniLen[k] = true
+		}
+	}
 	return &c
 }
 
@@ -568,6 +583,15 @@ func (s *state) key() string {
 	}
 	if s.window {
 		parts = append(parts, "window")
+	}
+	for k := range s.uniEq {
+		parts = append(parts, k.Name()+"==len")
+	}
+	for k := range s.uniNeg {
+		parts = append(parts, k.Name()+"<0")
+	}
+	for k := range s.uniLen {
+		parts = append(parts, k.Name()+"=len")
 	}
 	for k, v := range s.rel {
 		a := itoa(int(v.off))
@@ -642,6 +666,7 @@ type explorer struct {
 	badUse    ssa.Instruction    // first use of the buffer not proven to lie within [0,n)
 	windows   int                // windows validated
 	fillArr   map[ssa.Value]bool // PRE-2: the pre-sized arrays of the fill loop
+	uni       *uniCheck          // TOK-3: uniform token count per accepted line (runs inside the PRE-2 iteration exploration)
 	pre2ctr   *ssa.Phi           // PRE-3: the one counter whose increments must each store a record (nil: see pre2set)
 	pre2set   map[*ssa.Phi]bool  // PRE-2: the counters that bound the loop or subscript the stores (a line counter kept for messages is neither)
 
@@ -981,6 +1006,20 @@ func (e *explorer) assignPhis(b, from *ssa.BasicBlock, st *state) {
 		}
 		ups = append(ups, u)
 	}
+	if e.uni != nil {
+		var isLen []bool
+		for _, u := range ups {
+			v := stripConv(u.p.Edges[pi])
+			isLen = append(isLen, e.uni.lenVals[v] || st.uniLen[v])
+		}
+		for i, u := range ups {
+			if isLen[i] {
+				st.uniLen[u.p] = true
+			} else {
+				delete(st.uniLen, u.p)
+			}
+		}
+	}
 	for _, u := range ups {
 		st.set(u.p, u.a)
 		if e.mode == modeIO4 || e.mode == modePRE2 {
@@ -1024,6 +1063,10 @@ func (e *explorer) cycle(latch *ssa.BasicBlock, st *state) {
 		if p == latch {
 			pi = i
 		}
+	}
+	if e.mode == modePRE2 && e.uni != nil {
+		e.uniCycle(latch, pi, st)
+		return
 	}
 	if e.mode == modePRE2 {
 		counted := false
@@ -1373,6 +1416,10 @@ func (e *explorer) block(it item) {
 					e.learnLE(in.Cond, true, st)
 					e.learnLE(in.Cond, false, s2)
 				}
+				if e.uni != nil {
+					e.learnUni(in.Cond, true, st)
+					e.learnUni(in.Cond, false, s2)
+				}
 				take(0, st)
 				take(1, s2)
 			}
@@ -1385,6 +1432,124 @@ func (e *explorer) block(it item) {
 			return
 		case *ssa.Panic:
 			return
+		}
+	}
+}
+
+// ---- TOK-3: every accepted line has the same number of tokens --------------------------------------------
+
+// uniCheck: candidates are the integer loop-header phis that start from a negative constant ("nothing
+// latched yet"). A candidate p proves uniformity if on every iteration that records data
+//   - the value carried to the next iteration is len(tokens) of this line (assigned, or p unchanged on a
+//     path where the branch p == len(tokens) was taken), and
+//   - p was either still negative (first record) or equal to len(tokens) of this line.
+type uniCheck struct {
+	lenVals map[ssa.Value]bool
+	ok      map[*ssa.Phi]bool
+	why     map[*ssa.Phi]string
+	cycles  int
+}
+
+func (e *explorer) learnUni(cond ssa.Value, truth bool, st *state) {
+	for {
+		u, ok := cond.(*ssa.UnOp)
+		if !ok || u.Op != token.NOT {
+			break
+		}
+		truth = !truth
+		cond = u.X
+	}
+	b, ok := cond.(*ssa.BinOp)
+	if !ok {
+		return
+	}
+	op := b.Op
+	x, y := stripConv(b.X), stripConv(b.Y)
+	// a candidate itself, or a value known to equal it on this path (the join after `if p < 0 { p = len }`)
+	base := func(v ssa.Value) *ssa.Phi {
+		if ph, ok := v.(*ssa.Phi); ok && e.uni.ok[ph] {
+			return ph
+		}
+		if st.uniLen[v] || e.uni.lenVals[v] {
+			return nil
+		}
+		if r, ok := e.evalRel(v, st, 0); ok && !r.adv() && e.uni.ok[r.base] {
+			return r.base
+		}
+		return nil
+	}
+	px, py := base(x), base(y)
+	var p *ssa.Phi
+	var other ssa.Value
+	switch {
+	case px != nil:
+		p, other = px, y
+	case py != nil:
+		p, other = py, x
+		switch op {
+		case token.LSS:
+			op = token.GTR
+		case token.LEQ:
+			op = token.GEQ
+		case token.GTR:
+			op = token.LSS
+		case token.GEQ:
+			op = token.LEQ
+		}
+	default:
+		return
+	}
+	if !truth {
+		switch op {
+		case token.LSS:
+			op = token.GEQ
+		case token.LEQ:
+			op = token.GTR
+		case token.GTR:
+			op = token.LEQ
+		case token.GEQ:
+			op = token.LSS
+		case token.EQL:
+			op = token.NEQ
+		case token.NEQ:
+			op = token.EQL
+		}
+	}
+	if e.uni.lenVals[other] || st.uniLen[other] {
+		if op == token.EQL {
+			st.uniEq[p] = true
+		}
+		return
+	}
+	if c, isC := ssau.ConstInt(other); isC {
+		if (op == token.LSS && c <= 0) || (op == token.LEQ && c < 0) || (op == token.EQL && c < 0) {
+			st.uniNeg[p] = true
+		}
+	}
+}
+
+func (e *explorer) uniCycle(latch *ssa.BasicBlock, pi int, st *state) {
+	if !st.stored {
+		return // the line was skipped, nothing recorded for it
+	}
+	e.uni.cycles++
+	for p, ok := range e.uni.ok {
+		if !ok {
+			continue
+		}
+		next := stripConv(p.Edges[pi])
+		nextIsLen := e.uni.lenVals[next] || st.uniLen[next]
+		same := false
+		if r, rok := e.evalRel(p.Edges[pi], st, 0); rok && r.base == p && !r.adv() {
+			same = true
+		}
+		switch {
+		case !(st.uniEq[p] || st.uniNeg[p]):
+			e.uni.ok[p] = false
+			e.uni.why[p] = "a line is accepted on a path (back edge near " + e.a.p.Pos(blockPos(latch)) + ") on which '" + nameOfPhi(p) + "' is neither still unset (negative) nor tested equal to the line's token count"
+		case !(nextIsLen || (same && st.uniEq[p])):
+			e.uni.ok[p] = false
+			e.uni.why[p] = "'" + nameOfPhi(p) + "' does not carry the token count of the accepted line to the next one (back edge near " + e.a.p.Pos(blockPos(latch)) + ")"
 		}
 	}
 }
